@@ -308,28 +308,38 @@ func runC19(c *worker.Ctx) {
 	// encoder is used again (a host may queue requests before shipping them).
 	if c.T.Bool(1, 4) && len(res.Violations) == 0 {
 		var held []byte
+		// one encoder for all the calls, or a fresh one per call
+		sameEncoder := c.T.Bool(1, 2)
+		one := codec.NewEncoder()
+		encoder := func() *codec.Encoder {
+			if sameEncoder {
+				return one
+			}
+			return codec.NewEncoder()
+		}
 		func() {
 			defer func() { recover() }()
 			if single {
-				held, _ = codec.NewEncoder().Encode(stmts[0])
+				held, _ = encoder().Encode(stmts[0])
 			} else {
-				held, _ = codec.NewEncoder().Encodes(stmts)
+				held, _ = encoder().Encodes(stmts)
 			}
 		}()
 		snapshot := append([]byte{}, held...)
 		func() {
 			defer func() { recover() }()
 			for _, it := range encCorpus()[:min(3, len(encCorpus()))] {
-				codec.NewEncoder().Encode(it.Stmt)
-				codec.NewEncoder().Encodes([]ast.Statement{it.Stmt, it.Stmt})
+				encoder().Encode(it.Stmt)
+				encoder().Encodes([]ast.Statement{it.Stmt, it.Stmt})
 			}
+			encoder().Encode(stmts[0])
 		}()
 		if !bytes.Equal(held, snapshot) {
 			how := "Encode"
 			if !single {
 				how = "Encodes"
 			}
-			res.Violate("C19/roundtrip", "C19/encoding-aliased:"+how, fmt.Sprintf("the bytes returned by %s changed after later encoder calls (they alias reused memory): %d bytes, first difference at %d\nsource:\n%s", how, len(held), firstDiff(held, snapshot), clipSrc(src)))
+			res.Violate("C19/roundtrip", "C19/encoding-aliased:"+how, fmt.Sprintf("the bytes returned by %s changed after later encoder calls (same Encoder value for all calls: %v; they alias reused memory): %d bytes, first difference at %d\nsource:\n%s", how, sameEncoder, len(held), firstDiff(held, snapshot), clipSrc(src)))
 			return
 		}
 		res.Probe("encoding_rechecked_after_later_encodes")
